@@ -163,6 +163,7 @@ class ProcTable:
         self.history = {}              # inc -> dict(pid, spawned_at, exited...)
         self.cpu_lines = None          # optional override for /stat cpu lines (bytes)
         self.listing_hook = None       # callable(table) invoked when the root is listed
+        self.reparent = True           # children of an exiting process go to init (kernel behaviour)
 
     # -- table operations -------------------------------------------------------------
     def spawn(self, pid, start, ppid=1, comm=b"proc", **kw):
@@ -178,14 +179,22 @@ class ProcTable:
         p = self.procs[pid]
         p.zombie = True
         p.exit_status = status
-        p.ppid = p.ppid
+        self._reparent(pid)
         return p
+
+    def _reparent(self, pid):
+        # the kernel re-parents the children of an exiting process to init
+        if self.reparent:
+            for q in self.procs.values():
+                if q.ppid == pid and q.pid != pid:
+                    q.ppid = 1
 
     def reap(self, pid):
         return self.procs.pop(pid)
 
     def remove(self, pid):
         """exit + reap at once (process vanishes)."""
+        self._reparent(pid)
         return self.procs.pop(pid, None)
 
     def owner_of(self, ident):
@@ -214,24 +223,32 @@ class ProcTable:
         return cpu + b"intr 1000 0 0\nctxt 5000\nbtime %d\nprocesses 100\nprocs_running 1\n" \
                      b"procs_blocked 0\nsoftirq 300 1 2\n" % self.btime
 
+    def _rootnames(self):
+        return sorted({k.split("/", 1)[0] for k in self.rootfiles} | {"stat", "self"})
+
     # -- provider -----------------------------------------------------------------------
     def resolve(self, parts):
         if not parts:
             if self.listing_hook is not None:
                 def names():
                     self.listing_hook(self)
-                    return [str(p) for p in self.procs] + list(self.rootfiles) + ["stat", "self"]
+                    return [str(p) for p in self.procs] + self._rootnames()
                 return D(names)
-            return D([str(p) for p in self.procs] + list(self.rootfiles) + ["stat", "self"])
+            return D([str(p) for p in self.procs] + self._rootnames())
         head = parts[0]
         if not head.isdigit():
-            if head in self.rootfiles and len(parts) == 1:
-                n = self.rootfiles[head]
+            rel = "/".join(parts)
+            if rel in self.rootfiles:
+                n = self.rootfiles[rel]
                 if isinstance(n, (F, D, L)):
                     return n
                 return F(n)
             if head == "stat" and len(parts) == 1:
                 return F(self.render_root_stat)
+            pre = rel + "/"
+            names = sorted({k[len(pre):].split("/", 1)[0] for k in self.rootfiles if k.startswith(pre)})
+            if names:
+                return D(names)
             return None
         ident = int(head)
         p, tid = self.owner_of(ident)
